@@ -11,7 +11,7 @@ EXPLANATION = (
     'change only by rename-from-staging or remove_file; (R2) the commit region is entered only on the equal edge of finalize(hasher) == request hash and '
     'the Ok edge of sync_all; on the unequal edge the staging file is removed and no rename is reachable; (R3) the streaming loop hashes exactly what '
     'it stores, reads through take(request len) and leaves only on n == 0; (R4) the number of streamed bytes is compared with `len` before commit; '
-    '(R5) staging ownership (= C03.R6); (R6) a Get announces len/hash of the bytes it sends (one handle or a held region). '
+    'a Write adaptor in the hub that forwards write() to an inner writer forwards flush() to it too (a buffered tail must not outlive the fsync and the rename); (R5) staging ownership (= C03.R6); (R6) a Get announces len/hash of the bytes it sends (one handle or a held region). '
     'Not decided: the "at every instant" observation under real interleavings/kills (follows from R1, R2, R5 on paper).')
 ASSUMPTIONS = ['rename(2) atomicity; sync_all flushes the staged file', 'blake3::Hasher implements BLAKE3']
 
@@ -31,6 +31,8 @@ def run(ctx):
     ctx.attempt(r2_r4, ctx, F, hub)
     from rules import C03
     ctx.attempt(C03.staging_ownership, ctx, F, hub, 'C10.R5')
+    # (no instance on the pinned tree: the rule is vacuous until a Write adaptor appears in the hub; mutant N6-* is its positive control)
+    ctx.attempt(write_adaptors_forward_flush, ctx, F, 'C10.R2', ['bin/copia/serve.rs', 'bin/copia/wire.rs'])
     ctx.attempt(r6, ctx, F, hub)
 
 
@@ -57,6 +59,9 @@ def r1(ctx, F, hub):
             ctx.check(ok, 'C10.R1', key, 'rename(staging -> live)', 'rename with unexpected endpoints %s (live names must be bound from staging only)' % classes, term_loc(b, bb))
         elif short in ('remove_file',):
             ok = classes[0] in ('staging', 'live')
+            if not ok and classes[0] == 'control' and hub.from_walk(b, t['args'][0]):
+                ctx.undecided('C10.R1', '%s removes entries it found by listing the served tree (a clean-up): which files those are is not decided' % where)
+                continue
             ctx.check(ok, 'C10.R1', key, 'remove of a staging or live name', 'remove_file on a %s path' % classes[0], term_loc(b, bb))
         elif short in ('create_dir_all', 'create_dir'):
             ok = classes[0] in ('control', 'parent')
